@@ -664,3 +664,49 @@ m("x8-merged-width-arm-4-as-u16", "C06", VM, _CS_ORIG, _cs_inline(w4="u16"), "?"
 
 m("x8-merged-width-read-through-dst", "C06", VM, _CS_ORIG, _cs_inline(rd="dst as *const u8"), "?")
 m("x8-merged-default-arm-reachable", "C07", VM, _CS_ORIG, _cs_inline(a8="16"), "?")
+
+# the stepping pass as a function over `&mut` cursors and count (accepted since refactor round 6), each with one defect
+def _csm(last_left="&mut left", stride="min_align", gate="if align < min_align {\n                return;\n            }"):
+    return f"""    unsafe fn copy_slice_volatile(mut dst: *mut u8, mut src: *const u8, total: usize) -> usize {{
+        let mut left = total;
+        let mut fresh = total;
+        let _ = &mut fresh;
+
+        let align = min(alignment(src as usize), alignment(dst as usize));
+
+        unsafe fn copy_aligned_slice(dst: &mut *mut u8, src: &mut *const u8, left: &mut usize, align: usize, min_align: usize) {{
+            {gate}
+
+            while *left >= min_align {{
+                // SAFETY: test mutant scaffold
+                unsafe {{ copy_single(min_align, *src, *dst) }};
+
+                *left -= min_align;
+
+                if *left == 0 {{
+                    break;
+                }}
+
+                // SAFETY: test mutant scaffold
+                unsafe {{
+                    *src = (*src).add({stride});
+                    *dst = (*dst).add({stride});
+                }}
+            }}
+        }}
+
+        // SAFETY: test mutant scaffold
+        unsafe {{
+            if size_of::<usize>() > 4 {{
+                copy_aligned_slice(&mut dst, &mut src, &mut left, align, 8);
+            }}
+            copy_aligned_slice(&mut dst, &mut src, &mut left, align, 4);
+            copy_aligned_slice(&mut dst, &mut src, &mut left, align, 2);
+            copy_aligned_slice(&mut dst, &mut src, {last_left}, align, 1);
+        }}
+
+        total
+    }}"""
+m("x8-stepfn-mut-fresh-count", "C06", VM, _CSV_ORIG, _csm(last_left="&mut fresh"), "?")
+m("x8-stepfn-mut-stride-one", "C06", VM, _CSV_ORIG, _csm(stride="1"), "?")
+m("x8-stepfn-mut-no-gate", "C06", VM, _CSV_ORIG, _csm(gate=""), "?")
